@@ -80,6 +80,15 @@ PROBE_FILES = {
     'c18p/Ver.1.0.dsdl': 'uint8 a\n@extent 64\n',
     'c18p/Ver.1.2.dsdl': 'uint8 a\nuint8 b\n@extent 64\n',
     'c18p/Ver.1.1.dsdl': 'uint8 a\n@extent 64\n',
+    # minors on both sides of 10 and majors 0 / 1 / 10: 'Name.1.10' sorts before 'Name.1.9' as text
+    'c18p/Status.1.2.dsdl': 'uint8 MINOR = 2\nuint8 a\n@extent 128\n',
+    'c18p/Status.1.9.dsdl': 'uint8 MINOR = 9\nuint8 a\nuint8 b\n@extent 128\n',
+    'c18p/Status.1.10.dsdl': 'uint8 MINOR = 10\nuint8 a\nuint8 b\nuint8 c\n@extent 128\n',
+    'c18p/Status.1.11.dsdl': 'uint8 MINOR = 11\nuint8 a\nuint8 b\nuint8 c\nuint4[<=2] d\n@extent 128\n',
+    'c18p/Status.0.1.dsdl': 'uint8 MINOR = 1\nuint8 a\n@sealed\n',
+    'c18p/Status.0.12.dsdl': 'uint8 MINOR = 12\nuint16 a\n@sealed\n',
+    'c18p/Status.10.0.dsdl': 'uint8 MINOR = 0\nuint8 a\n@sealed\n',
+    'c18p/Status.10.3.dsdl': 'uint8 MINOR = 3\nbool a\n@sealed\n',
     'c18p/Dep.1.0.dsdl': '@deprecated\nuint4[<=2] x\nInner.1.0 y\n@sealed\n',
     'c18p/Svc.1.0.dsdl': 'uint4[<=2] q\nU.1.0 u\n@sealed\n---\nfloat16 r\nInner.1.0[<=2] l\n@extent 100 * 8\n',
 }
@@ -1426,6 +1435,16 @@ def keyword_namespace(rng: random.Random) -> dict:
         lines = ['@union'] if union else []
         lines += ['%s %s' % (rng.choice(KW_TYPES), nm) for nm in names]
         files['c18k/W%d.1.0.dsdl' % i] = '\n'.join(lines) + '\n@sealed\n'
+    # randomised multi-version stratum: names x majors x minor sets that straddle 10 and 100 (text order != numeric order)
+    for name in ('Multi', 'Ver' + str(rng.randint(2, 9))):
+        for major in rng.sample([0, 1, 2, 9, 10, 11, 100], rng.randint(1, 3)):
+            minors = rng.sample([0, 1, 2, 3, 9, 10, 11, 19, 20, 99, 100, 101], rng.randint(2, 5))
+            if major == 0:
+                minors = [m_ for m_ in minors if m_ > 0] or [1]
+            sealed = rng.random() < 0.5
+            for mn in minors:
+                body = ['uint8 MINOR_LOW = %d' % (mn % 256), 'uint8 a'] + ['uint8 f%d' % k_ for k_ in range(mn % 3)]
+                files['c18k/%s.%d.%d.dsdl' % (name, major, mn)] = '\n'.join(body) + ('\n@sealed\n' if sealed and mn % 3 == 0 and False else '\n@extent 256\n')
     return dsdlgen.single(files)
 
 
@@ -1443,7 +1462,7 @@ def main(chk: core.Check, replay: typing.Optional[str] = None) -> int:
     quick = chk.tier == 'quick'
     adopt_own_findings(chk)
     repo = core.REPO
-    res = core.coq_check('C18', ['pyobj', 'pin_c18support', 'pin_c18model'], timeout=400)
+    res = core.coq_check('C18', ['pyobj', 'pyalias', 'pin_c18support', 'pin_c18model'], timeout=400)
     chk.proof_coverage(res, [
         'scanner of lang/py/templates/base.j2 and translator of pick_width (tools/translators/gen_c18.py); shape pin c18support '
         '(tools/translators/shape_pin.py) on to_builtin/_to_builtin_impl/update_from_builtin/get_class/get_model/get_attribute/set_attribute',
